@@ -134,6 +134,27 @@ theorem mtcp_stream {B} (c : Codec B) (hg : Lemmas.Good c) (items : List (Item B
     server c (items.flatMap (encItem c)) = (bundlesOf items, .eof) :=
   Lemmas.server_stream c hg items
 
+theorem bundlesOf_perm {B} {a b : List (Item B)} (h : a.Perm b) : (bundlesOf a).Perm (bundlesOf b) := by
+  induction h with
+  | nil => exact List.Perm.nil
+  | cons x _ ih => cases x <;> simp only [bundlesOf] <;> first | exact ih | exact ih.cons _
+  | swap x y l =>
+    cases x <;> cases y <;> simp only [bundlesOf] <;>
+      first | exact List.Perm.refl _ | exact List.Perm.swap _ _ _
+  | trans _ _ ih1 ih2 => exact ih1.trans ih2
+
+/-- **Concurrent senders on one client** (`mtcp_concurrent_senders`): `Send` and the keep-alive ticker write a
+frame / a keep-alive while holding the client's mutex (`gen_mtcp_send`: Lock before the first write, the deferred
+Unlock after the probe), so what several goroutines put on the wire is SOME interleaving `merged` of whole
+items. Whatever that interleaving is, the server reports exactly the bundles sent — each one once, as sent, the
+order being that of the interleaving — and ends cleanly. (`concsend` lines judge the same on the implementation.) -/
+theorem mtcp_concurrent_senders {B} (c : Codec B) (hg : Lemmas.Good c) (perSender : List (List (Item B)))
+    (merged : List (Item B)) (hm : merged.Perm perSender.flatten) :
+    (server c (merged.flatMap (encItem c))).1.Perm (bundlesOf perSender.flatten) ∧
+    (server c (merged.flatMap (encItem c))).2 = .eof := by
+  rw [mtcp_stream c hg merged]
+  exact ⟨bundlesOf_perm hm, rfl⟩
+
 /-- **mtcp_prefix**: a connection cut after ANY number of bytes yields a prefix of the sent bundles — never a
 different bundle — provided a truncated encoding is not itself a bundle (self-delimiting codec). -/
 theorem mtcp_prefix {B} (c : Codec B) (hg : Lemmas.Good c)
